@@ -33,6 +33,7 @@ from pyttb.pyttb_utils import (
     IndexVariant,
     OneDArray,
     Shape,
+    as_float_if_needed,
     gather_wrap_dims,
     get_index_variant,
     get_mttkrp_factors,
@@ -941,6 +942,10 @@ class sptensor:
             else:
                 [subsOther, valsOther] = other.find()
                 valsSelf = self[subsOther]
+            # As real numbers: integer, boolean or single precision values must
+            # not wrap around or saturate in the sum of products
+            valsSelf = as_float_if_needed(valsSelf)
+            valsOther = as_float_if_needed(valsOther)
             return valsOther.transpose().dot(valsSelf).item()
 
         if isinstance(other, ttb.tensor):
@@ -948,6 +953,10 @@ class sptensor:
                 assert False, "Sptensor and tensor must be same shape for innerproduct"
             [subsSelf, valsSelf] = self.find()
             valsOther = np.atleast_1d(other[subsSelf])
+            # As real numbers: integer, boolean or single precision values must
+            # not wrap around or saturate in the sum of products
+            valsSelf = as_float_if_needed(valsSelf)
+            valsOther = as_float_if_needed(valsOther)
             return valsOther.transpose().dot(valsSelf).item()
 
         if isinstance(other, (ttb.ktensor, ttb.ttensor)):  # pragma: no cover
